@@ -262,6 +262,111 @@ func sortCallback(fn *ssa.Function) bool {
 	return ms.Lookup(nil, "Len") != nil && ms.Lookup(nil, "Less") != nil && ms.Lookup(nil, "Swap") != nil
 }
 
+// sortSliceLess: fn is a closure used only as the less argument of sort.Slice / sort.SliceStable
+// (sort.SliceIsSorted), X is a load of a captured variable, the slice handed to that call is a
+// load of the same variable in the same block with no store in between, and the closure never
+// assigns the variable — the indices sort passes are then within the slice X denotes.
+func sortSliceLess(fn *ssa.Function, X ssa.Value) bool {
+	if fn.Parent() == nil {
+		return false
+	}
+	ld, ok := X.(*ssa.UnOp)
+	if !ok || ld.Op != token.MUL {
+		return false
+	}
+	fv, ok := ld.X.(*ssa.FreeVar)
+	if !ok {
+		return false
+	}
+	fvIdx := -1
+	for i, v := range fn.FreeVars {
+		if v == fv {
+			fvIdx = i
+		}
+	}
+	stored := false
+	allInstrs(fn, func(in ssa.Instruction) {
+		if st, ok := in.(*ssa.Store); ok && st.Addr == ssa.Value(fv) {
+			stored = true
+		}
+	})
+	if fvIdx < 0 || stored {
+		return false
+	}
+	found, other := false, false
+	allInstrs(fn.Parent(), func(in ssa.Instruction) {
+		mc, ok := in.(*ssa.MakeClosure)
+		if !ok || mc.Fn != ssa.Value(fn) {
+			return
+		}
+		cell := mc.Bindings[fvIdx]
+		refs := mc.Referrers()
+		if refs == nil {
+			other = true
+			return
+		}
+		for _, u := range *refs {
+			if _, isDbg := u.(*ssa.DebugRef); isDbg {
+				continue
+			}
+			call, ok := u.(*ssa.Call)
+			if !ok {
+				other = true
+				continue
+			}
+			cal := call.Call.StaticCallee()
+			if cal == nil || cal.Pkg == nil || cal.Pkg.Pkg.Path() != "sort" || len(call.Call.Args) != 2 || call.Call.Args[1] != ssa.Value(mc) {
+				other = true
+				continue
+			}
+			switch cal.Name() {
+			case "Slice", "SliceStable", "SliceIsSorted":
+			default:
+				other = true
+				continue
+			}
+			mi, ok := call.Call.Args[0].(*ssa.MakeInterface)
+			if !ok {
+				other = true
+				continue
+			}
+			arg, ok := mi.X.(*ssa.UnOp)
+			if !ok || arg.Op != token.MUL || arg.X != cell || arg.Block() != call.Block() {
+				other = true
+				continue
+			}
+			// no store to the cell and no other call between the load and the sort call
+			between, clean := false, true
+			for _, bi := range call.Block().Instrs {
+				if bi == ssa.Instruction(arg) {
+					between = true
+					continue
+				}
+				if bi == ssa.Instruction(call) {
+					break
+				}
+				if !between {
+					continue
+				}
+				switch y := bi.(type) {
+				case *ssa.Store:
+					if y.Addr == cell {
+						clean = false
+					}
+				case *ssa.Call, *ssa.Go, *ssa.Defer:
+					clean = false
+				}
+			}
+			if !clean {
+				other = true
+				continue
+			}
+			found = true
+		}
+	})
+	return found && !other
+}
+
 // enumerate lists the obligations of one function for the requested kinds (nil = all).
 func (oc *obligCtx) enumerate(fn *ssa.Function, kinds map[string]bool) []Obligation {
 	c := oc.c
@@ -409,6 +514,10 @@ func (oc *obligCtx) indexOb(fn *ssa.Function, in ssa.Instruction, X, idx ssa.Val
 	if p, isP := stripNumConv(idx).(*ssa.Parameter); isP && sortCallback(fn) && rootOf(X) == ssa.Value(fn.Params[0]) {
 		_ = p
 		add("index", in, desc, true, "index parameter of a sort.Interface callback: valid by sort's contract")
+		return
+	}
+	if _, isP := stripNumConv(idx).(*ssa.Parameter); isP && sortSliceLess(fn, X) {
+		add("index", in, desc, true, "index parameter of the less function of sort.Slice, into the slice being sorted: valid by sort's contract")
 		return
 	}
 	if k, isC := constInt(idx); isC {
